@@ -873,6 +873,15 @@ func (a *Analyzer) onOpen(n *nodeState, r *ev.Rec) {
 				if x := r.Log[i]; x.Index == st.Snap && x.Term != st.SnapTerm {
 					a.find("C10", "log-contradicts-snapshot-after-restart", fmt.Sprintf("log-contradicts-snapshot-after-restart:%s", n.crashPoint), r.Q, "%s after restart: its snapshot ends at (%d,t%d) but its log holds (%d,t%d) there (crash point %q)", n.key, st.Snap, st.SnapTerm, x.Index, x.Term, n.crashPoint)
 				}
+				// terms never decrease along a log: what follows the snapshot
+				// cannot be older than the entry the snapshot ends with. A log
+				// that begins right behind the snapshot with an older term is
+				// the tail of the history the snapshot replaced.
+				if x := r.Log[i]; x.Index > st.Snap && x.Term < st.SnapTerm {
+					a.find("C10", "log-behind-snapshot-is-older-than-the-snapshot", fmt.Sprintf("log-behind-snapshot-is-older-than-the-snapshot:%s", n.crashPoint), r.Q, "%s after restart: its snapshot ends at (%d,t%d) and its log goes on with (%d,t%d) - entries of the history that snapshot replaced (log (%d,%d], crash point %q)", n.key, st.Snap, st.SnapTerm, x.Index, x.Term, st.Prev, st.Last, n.crashPoint)
+					a.find("C04", "log-behind-snapshot-is-older-than-the-snapshot", "", r.Q, "%s after restart holds (%d,t%d) behind a snapshot that ends at (%d,t%d)", n.key, x.Index, x.Term, st.Snap, st.SnapTerm)
+					break
+				}
 			}
 		}
 		if st.LogLast != st.Last {
